@@ -33,6 +33,10 @@ theorem ASim.attachRow (ok : P.Ok) {s₁ s₂ : St} (h : ASim P s₁ s₂) {g : 
       · exact hcl.1 i hi
       · exact h.ndom i (by omega))
     (by intro x hx; simp [grefs] at hx) (by intro _ x hx; simp [grefs] at hx)
+    (by
+      intro hhb hgb
+      obtain ⟨c, cs, e⟩ := h.bne hhb
+      rw [← hgb, hg] at e; cases e)
   have e : mapGrpAt P g (.row (nodes ++ [s₁.nodes.size]) t) = .row (nodes.map P.ν ++ [s₂.nodes.size]) t := by
     simp [mapGrpAt, mapGrp, h0]
   rw [e] at a2
@@ -55,6 +59,10 @@ theorem ASim.attachNoop (ok : P.Ok) {s₁ s₂ : St} (h : ASim P s₁ s₂) {g :
       exact h.ndom i (by omega))
     (by intro x hx; exact hcl.2 x (by simpa [grefs] using hx))
     (by intro ht x hx; exact h.ra g _ hd ht hg x (by simpa [grefs] using hx))
+    (by
+      intro hhb hgb
+      obtain ⟨c, cs, e⟩ := h.bne hhb
+      rw [← hgb, hg] at e; cases e)
   have e : mapGrpAt P g (.noop ps (some s₁.nodes.size)) =
       .noop (ps.map fun p => (P.γ p.1, p.2)) (some s₂.nodes.size) := by
     simp [mapGrpAt, mapGrp, h0]
